@@ -76,6 +76,8 @@ JudgePairing(e) ==
       X == TLCEval(Pairing(P, S))
   IN /\ InG1(P) /\ InG2(S)
      /\ e.out.e = X /\ e.out.pw = X /\ e.out.qw = X
+     /\ e.out.proj = X /\ e.out.prep = <<"some", X>>
+     /\ e.out.p_prep_zero = (Len(P) = 0) /\ e.out.q_prep_zero = (Len(S) = 0)
      /\ ((Len(P) = 0 \/ Len(S) = 0) <=> X = F12One)
 
 (* C03: bilinearity as a relation between two library results *)
